@@ -14,6 +14,7 @@ func init() {
 	verifHarnesses["HarnessC15Open"] = HarnessC15Open
 	verifHarnesses["HarnessC16NoClobber"] = HarnessC16NoClobber
 	verifHarnesses["HarnessC16ReadOnly"] = HarnessC16ReadOnly
+	verifHarnesses["HarnessC16Race"] = HarnessC16Race
 	verifHarnesses["HarnessC16Flags"] = HarnessC16Flags
 }
 
@@ -115,6 +116,7 @@ func HarnessC15Open() {
 	verifAssert(!reject, "C15: a bbolt file that is not a complete index was accepted")
 	verifAssert(idx.Close() == nil, "C15: Close failed")
 	verifAssert(idx.Close() == nil, "C15: the second Close failed")
+	verifAssert(idx.Close() == nil, "C15: the third Close failed")
 	verifAssert(!verifFlockHeld(path), "C15: Close left the file locked")
 	idx3, err3 := OpenIndex(path, opts...)
 	verifAssert(err3 == nil, "C15: the file cannot be opened again after Close")
@@ -152,6 +154,37 @@ func HarnessC16NoClobber() {
 	verifAssert(w2.Flush() != nil, "C16: Flush onto an existing output path must fail")
 	verifAssert(verifFileVersion(path) == before, "C16: Flush changed a pre-existing file")
 	verifAssert(!verifFlockHeld(path) || kind < 3, "C16: a failed Flush left the file locked")
+	verifReach("end")
+}
+
+// HarnessC16Race: the output path does not exist when Flush is called, and another process
+// creates it (exclusively) at some moment while Flush runs. Whoever comes second must lose:
+// if the other process created the file, Flush fails and that file keeps its bytes; otherwise
+// Flush succeeds and the file is the index.
+func HarnessC16Race() {
+	path := verifTempPath("c16race.updog")
+	w := NewIndexWriter(path)
+	n := 1 + verifChoice("rows", 2)
+	for i := 0; i < n; i++ {
+		if _, err := w.AddRow(map[string]string{"a": []string{"x", "y"}[i%2]}); err != nil {
+			panic(err)
+		}
+	}
+	verifFsAdversary(path)
+	err := w.Flush()
+	created := verifFsAdversaryStop()
+	if created {
+		verifAssert(verifFileIsForeign(path), "C16: a file that another process created at the output path while Flush was running was overwritten")
+		verifAssert(err != nil, "C16: Flush reported success although the output path was taken by another process")
+	} else {
+		verifAssert(err == nil, "C16: Flush failed although the output path did not exist")
+		idx, oerr := OpenIndex(path)
+		verifAssert(oerr == nil, "C16: the flushed index cannot be opened")
+		if oerr == nil {
+			verifAssert(verifCount(idx, &ExprNot{Expr: &ExprEqual{Column: "a", Value: "nope"}}) == uint64(n), "C16: the flushed index does not hold the rows")
+			idx.Close()
+		}
+	}
 	verifReach("end")
 }
 
